@@ -527,6 +527,13 @@ func externals() map[string]ExtFn {
 	e["strings.ContainsRune"] = func(m *Machine, a []Value) Value {
 		return e["strings.IndexRune"](m, a).(int64) >= 0
 	}
+	// time.Parse: the parsed value is opaque; whether the text parses is a decision of the world
+	e["time.Parse"] = func(m *Machine, a []Value) Value {
+		if m.Decide("timeparse:"+strKey(strArg(m, a[1])), 2, "whether the text is a time in the given layout") == 1 {
+			return Tuple{Unknown{Why: "zero time"}, mkErr(Lit("parsing time: cannot parse"))}
+		}
+		return Tuple{Unknown{Why: "a parsed time"}, Iface{}}
+	}
 	e["strings.Index"] = func(m *Machine, a []Value) Value {
 		return int64(strings.Index(concArg(m, a[0], "strings.Index"), concArg(m, a[1], "strings.Index")))
 	}
